@@ -580,7 +580,7 @@ func init() {
 	Register(&Engine{
 		Prop: "C02", Name: "handlediff", Run: runC02,
 		Trials: map[string]int{"quick": 50000, "thorough": 600000},
-		Rule:   "a file (or, 1 in 10, a directory) prepared identically on the SUT (mem.FS, keyvalue.FS over sharing/copying SimStore) and on os.FS; 1-3 handles opened with drawn flags (1 on the copying store); 1-24 drawn handle operations (Read/ReadAt/Write/WriteAt/Seek/Truncate/Stat/Close; buffer lengths 0..700, offsets -2..beyond EOF, all whence values incl. invalid) interleaved across the handles; after every call n, bytes, normalised EOF, every handle's offset and the file bytes are compared with os.File; distinct = event-log hash; every trial with at least one open handle is non-trivial",
+		Rule:   "a file (or, 1 in 10, a directory) prepared identically on the SUT (mem.FS, keyvalue.FS over sharing/copying SimStore) and on os.FS; 1-3 handles opened with drawn flags (1 on the copying store); 1-24 drawn handle operations (Read/ReadAt/Write/WriteAt/Seek/Truncate/Stat/Close; buffer lengths 0..700, offsets -2..beyond EOF, all whence values incl. invalid) interleaved across the handles; after every call n, bytes, normalised EOF, every handle's offset and the file bytes are compared with os.File; distinct = event-log hash; every trial with at least one open handle is non-trivial One op in six goes through the second entry point into the file: the blob package's Read/ReadAt/Write/WriteAt helpers, either on the handle itself (ReadBlob/WriteBlob...) or on the handle shown as a bare io.Reader/Writer (the helpers' fallbacks); refused calls must report no bytes and no offset; one file in 25 is larger than 1 MiB.",
 		Components: map[string][]string{
 			"real": {"keyvalue file handles and access-mode wrappers", "keyvalue/blob.Bytes", "mem store", "os.FS / os.File / kernel"},
 			"stub": {"SimStore (keyvalue kinds)"},
